@@ -167,5 +167,5 @@ if __name__ == "__main__":
              "Byte-level functions (uvarint, makeUnsigned, MarshalPublicKey, IDFromPublicKey, base58/CID text, multihash, protobuf scan of "
              "every mutated envelope/key) are compared byte for byte with the Coq model (conform_case); every attempt is judged by the "
              "property monitor (monitor_case). Non-trivial = envelope, signature, key-edit and colliding-concatenation cases.",
-        describe=describe, key=key, what=what, crosscheck=120,
+        describe=describe, key=key, what=what, crosscheck=60,
     ))
